@@ -195,9 +195,18 @@ Proof.
 Qed.
 Print Assumptions C02_escapes_are_literals.
 
-(** ** the repository: the specification's rule, else the default rule, else "no rule" —
-    after any sequence of rule sets (a set one of whose Adds fails is not loaded);
-    second conjunct: the pinned code, guarded *)
+(** ** the repository (AddRuleSet = clone, add every route, swap only on success; FindRule):
+    on the compressed tree, after any sequence of rule sets, the rule the specification
+    selects among what was loaded, else the default rule, else "no rule" *)
+Theorem C02_repository_find_rule :
+  forall (sets : list (nat * list rule_def)) (dflt : bool) (path : str) (m : matcher rval),
+    tree_find_rule (tree_load_rulesets empty_tree sets) dflt path m
+    = spec_find_rule (load_rulesets [] sets) dflt path m.
+Proof. exact tree_find_rule_is_spec. Qed.
+Print Assumptions C02_repository_find_rule.
+
+(** the same at the level of the pattern-map machine (second conjunct: the pinned code,
+    guarded), and what [spec_find_rule] means *)
 Theorem C02_default_or_norule :
   (forall (sets : list (nat * list rule_def)) (dflt : bool) (path : str) (m : matcher rval),
      find_rule false (load_rulesets [] sets) dflt path m = spec_find_rule (load_rulesets [] sets) dflt path m) /\
